@@ -28,6 +28,7 @@ from . import sim_c16 as sim
 
 PROP = "C16"
 FID_BACKLOG = "C16-handshake-backlog"
+FID_SURPLUS = "C16-surplus-reply"
 
 STATUS = [
     "echo:busy: processing",
@@ -43,10 +44,13 @@ STATUS = [
 TEMP = ["T:20.0 /0.0 B:21.0 /0.0", " T:20.1 /0.0 @:0", "echo: T:19.8 E:0 W:?"]
 OK_PLAIN = ["ok", "ok", "ok", "ok T:21.5 /0.0 B:20.1 /0.0", "ok P15 B3", "ok N12"]
 OK_ANYCASE = OK_PLAIN + ["OK", "Ok done"]
+SURPLUS_OK = ["ok", "ok", "ok T:22.0 /0.0", "Ok"]
+UNSOLICITED = ["ALARM:1", "Alarm: hard limit", "error:9", "!! kill() called", "Error:Heating failed, system stopped!"]
 BAD = ["error: checksum mismatch", "Error:Printer halted. kill() called!", "Alarm: hard limit", "ALARM:1",
        "!! fatal", "error:20"]
 COMPARE_LIVE = ("noop", "phase", "online", "printing", "clear", "w", "ack", "err", "priq", "tx", "out", "draise")
 COMPARE_HALTED = ("noop", "phase", "tx", "out", "draise")
+OBSERVABLE = ("phase", "w", "tx", "out", "draise")
 
 
 # ------------------------------------------------------------------ generation
@@ -126,6 +130,56 @@ def gen_case(rng, kind="serial", flavour=None):
     return {"kind": kind, "flavour": flavour, "n": n, "disc": rng.random() < 0.8, "stmts": stmts, "ops": ops}
 
 
+def gen_gated_case(rng, hit: bool):
+    """The caller starts each call only when told to (`W`), so lines can be delivered *between* two calls.
+    hit=False: surplus `ok` / unsolicited error lines are queued behind a statement's terminal reply and are
+    therefore read while the caller is idle (harmless on the repaired code; the next call must raise a stored
+    error).  hit=True (finding C16-surplus-reply): one such line is read while a write() waits for its own reply."""
+    n = rng.choice([2, 2, 3, 3, 4])
+    p_err = rng.choice([0.0, 0.2, 0.4])
+    ops = [["start"]]
+    for _ in range(3):
+        lines, pre, term = gen_script(rng, True, allow_temp=False, p_err=0.0)
+        ops.append(["D", pre, term, lines])
+        ops += [["R"]] * len(lines)
+
+    def push_op(kind=None):
+        kind = kind or rng.choice("ob")
+        return ["X", kind, rng.choice(SURPLUS_OK if kind == "o" else UNSOLICITED)]
+
+    hit_at = rng.randrange(n) if hit else None
+    k = 0
+    while k < n:
+        lines, pre, term = gen_script(rng, False, allow_temp=True, p_err=p_err)
+        if k == hit_at and (k == n - 1 or rng.random() < 0.5):
+            # the pushed line overtakes the reply: read while write(k) waits for its own reply
+            ops += [["W"], push_op(), ["R"], ["D", pre, term, lines]] + [["R"]] * len(lines)
+            k += 1
+            continue
+        ops += [["W"], ["D", pre, term, lines]]
+        if k == hit_at:
+            # the surplus line is read after the caller has entered write(k+1)
+            lines2, pre2, term2 = gen_script(rng, False, allow_temp=False, p_err=0.0)
+            ops += [push_op("o" if term == "b" or rng.random() < 0.6 else "b")] + [["R"]] * len(lines)
+            ops += [["W"], ["R"], ["D", pre2, term2, lines2]] + [["R"]] * len(lines2)
+            k += 2
+            continue
+        if term == "b" and rng.random() < 0.7:
+            xs = [["X", "o", "ok"]]            # Marlin style: an error line, then the usual ok
+        else:
+            xs = []
+        xs += [push_op() for _ in range(rng.choice([0, 0, 1, 1, 2]))]
+        ops += xs + [["R"]] * (len(lines) + len(xs))
+        k += 1
+    disc = rng.random() < 0.8
+    if disc:
+        ops.append(["W"])
+    ops += [["D", "-", "o", [("ok", False)]], ["R"], ["settle"]]
+    stmts = [gen_stmt(rng, j) for j in range(n)]
+    return {"kind": "serial", "flavour": "surplus-hit" if hit else "gated", "n": n, "disc": disc, "gated": True,
+            "stmts": stmts, "ops": ops}
+
+
 def exhaustive_cases():
     """Two statements; every reply shape per statement (no line / status / "T:" line, then ok / error) x the two
     extreme interleavings (device eager: consumes as soon as a command arrives; device lazy: every pending line
@@ -155,9 +209,9 @@ def exhaustive_cases():
 
 
 def model_lines(case):
-    out = [f"cfg writes={case['n']} disc={1 if case['disc'] else 0}"]
+    out = [f"cfg writes={case['n']} disc={1 if case['disc'] else 0} gated={1 if case.get('gated') else 0}"]
     for op in case["ops"]:
-        out.append(" ".join(op[:3]) if op[0] == "D" else op[0])
+        out.append(" ".join(op[:3]) if op[0] == "D" else " ".join(op[:2]) if op[0] == "X" else op[0])
     return out
 
 
@@ -184,12 +238,12 @@ def show(d: dict) -> str:
 def run_case(case, expected, timeout=1.5, settle=0.012):
     """Drive the real writer through `case`; `expected[i]` = model record (dict) after op i (wait hint and
     comparison).  Returns (impl projections, events, first disagreeing step or None, leftover threads)."""
-    S = sim.Session(case["kind"], case["stmts"], case["disc"]).start()
+    S = sim.Session(case["kind"], case["stmts"], case["disc"], gated=bool(case.get("gated"))).start()
     impl, bad_step = [], None
     try:
         for i, op in enumerate(case["ops"]):
             want = project(expected[i + 1]) if expected else None
-            if op[0] in "PDRL" and S.snapshot()["phase"] in ("failed", "disconnected"):
+            if op[0] in "PDRLX" and S.snapshot()["phase"] in ("failed", "disconnected"):
                 did = False  # the writer's device object is gone: nothing can be observed any more
             elif op[0] == "start":
                 t_end = time.time() + 3.0
@@ -204,16 +258,28 @@ def run_case(case, expected, timeout=1.5, settle=0.012):
                 did = S.release()
             elif op[0] == "L":
                 did = S.lose()
+            elif op[0] == "X":
+                did = S.push(op[2], op[1] == "b")
+            elif op[0] == "W":
+                S.permit()
+                did = True
             else:
                 did = True
             noop = "0" if did else "1"
             snap = None
             if did or op[0] == "settle":
-                t_end = time.time() + timeout
+                # after the first disagreement the script is still played to its end for the oracle; the model's
+                # prediction then only serves as a wait hint on the caller-visible part, with a short time-out
+                t_end = time.time() + (timeout if bad_step is None else 0.35)
                 while True:
                     snap = S.snapshot()
                     snap["noop"] = noop
-                    if want is None or project(snap) == want or time.time() > t_end:
+                    got = project(snap)
+                    if bad_step is not None and want is not None:
+                        reached = all(got.get(k) == want.get(k) for k in OBSERVABLE)
+                    else:
+                        reached = want is None or got == want
+                    if reached or time.time() > t_end:
                         break
                     time.sleep(0.002)
                 time.sleep(settle)
@@ -223,9 +289,8 @@ def run_case(case, expected, timeout=1.5, settle=0.012):
                 S.io().free_run = True  # reader may time out freely once the printer is online
             got = project(snap)
             impl.append(got)
-            if want is not None and got != want:
+            if want is not None and got != want and bad_step is None:
                 bad_step = i
-                break
         if bad_step is not None or not expected:
             # let whatever is still running finish so that the oracle sees the final picture
             time.sleep(0.15)
@@ -235,9 +300,22 @@ def run_case(case, expected, timeout=1.5, settle=0.012):
 
 
 # ------------------------------------------------------------------ oracle (event log only)
-def structural_info(ev):
+def _stmt_tx_index(case, ev):
+    stmts = [x.strip() for x in case["stmts"]]
+    idx = {}
+    for e in ev:
+        if e[0] == "tx" and e[3] and e[2] in stmts and stmts.index(e[2]) not in idx:
+            idx[stmts.index(e[2])] = e[1]
+    return idx
+
+
+def _flag_setting(text):
+    return text.strip().lower().startswith(("ok", "error", "alarm", "!!"))
+
+
+def structural_info(case, ev):
     """Structural facts about the run used by finding predicates (never the oracle's verdict)."""
-    info = {"backlog_at_online": 0}
+    info = {"backlog_at_online": 0, "surplus_hit": 0}
     sent = terms = 0
     for e in ev:
         if e[0] == "tx" and e[3]:
@@ -251,6 +329,27 @@ def structural_info(ev):
                 info["backlog_at_online"] = sent - terms
                 info["online_line"] = text
                 break
+    # surplus hit: a flag-setting line that is nobody's terminal reply is released while connect() awaits a
+    # line-number reset, or while a write() is open whose own terminal reply has not been released yet
+    tx_index = _stmt_tx_index(case, ev)
+    released, open_call, connect_done, resets = set(), None, False, 0
+    for e in ev:
+        if e[0] == "tx" and e[3] and "M110" in e[2]:
+            resets += 1
+        elif e[0] in ("connected", "connect-raised"):
+            connect_done = True
+        elif e[0] == "call":
+            open_call = e[1]
+        elif e[0] == "ret":
+            open_call = None
+        elif e[0] == "rel":
+            if e[3]:
+                released.add(e[1])
+            elif len(e) > 5 and e[5] == "x" and _flag_setting(e[2]):
+                if (not connect_done and resets >= 1) or (
+                        open_call is not None and tx_index.get(open_call, -1) not in released):
+                    info["surplus_hit"] += 1
+                    info.setdefault("surplus_line", e[2])
     return info
 
 
@@ -264,15 +363,18 @@ def oracle(case, ev):
     # (1) order, once, unmodified
     if user_log != stmts[: len(user_log)]:
         fails.append(("order", f"device received {user_log!r}, statements written were {stmts[:len(calls)]!r}"))
-    tx_index = {}
-    for e in ev:
-        if e[0] == "tx" and e[3] and e[2] in stmts and stmts.index(e[2]) not in tx_index:
-            tx_index[stmts.index(e[2])] = e[1]
+    tx_index = _stmt_tx_index(case, ev)
     loss_pos = next((i for i, e in enumerate(ev) if e[0] == "loss"), None)
     rel_pos = {}  # tx index -> (position of the terminal release, errorish)
     for i, e in enumerate(ev):
         if e[0] == "rel" and e[3]:
             rel_pos.setdefault(e[1], (i, e[4]))
+    completions = [i for i, e in enumerate(ev) if e[0] in ("ret", "disc-ret", "connected", "connect-raised")]
+
+    def error_line_since_previous_completion(i):
+        prev = max([c for c in completions if c < i], default=-1)
+        return any(x[0] == "rel" and x[4] for x in ev[prev + 1 : i])
+
     rets = {}
     for i, e in enumerate(ev):
         if e[0] == "ret":
@@ -292,20 +394,40 @@ def oracle(case, ev):
             if own[1] and res != "DeviceError":
                 fails.append(("error-not-raised", f"statement {k} was answered with an error reply but write({k}) "
                               + ("returned normally" if res == "returned" else f"raised {res}")))
-            if not own[1] and res != "returned" and not lost:
-                fails.append(("spurious-raise", f"statement {k} was acknowledged with ok but write({k}) raised {res}"))
+            if not own[1] and res != "returned" and not lost and not (
+                    res == "DeviceError" and error_line_since_previous_completion(i)):
+                fails.append(("spurious-raise", f"statement {k} was acknowledged with ok and no error line had been "
+                              f"delivered since the previous call, but write({k}) raised {res}"))
             if res == "returned" and k not in tx_index:
                 fails.append(("order", f"write({k}) returned but the device never received statement {k}"))
-    # (2) a write whose acknowledgement was delivered must complete
+    # (2) every error/alarm/!! line delivered to a live writer is raised by the caller's next call to complete
+    for i, e in enumerate(ev):
+        if e[0] == "rel" and e[4] and (loss_pos is None or loss_pos > i):
+            nxt = next((c for c in completions if c > i), None)
+            if nxt is None:
+                continue
+            c = ev[nxt]
+            raised = (c[0] == "ret" and c[2] != "returned") or (c[0] == "disc-ret" and c[1]) or c[0] == "connect-raised"
+            if not raised:
+                what = {"ret": f"write({c[1]}) returned normally", "disc-ret": "disconnect(wait=True) returned normally",
+                        "connected": "connect() returned normally"}[c[0]]
+                fails.append(("error-dropped", f"the device reported {e[2]!r}; the caller's next call to complete did not "
+                              f"raise it: {what}"))
+    # (3) a write whose acknowledgement was delivered must complete
     for k in calls:
         if k not in rets:
             own = rel_pos.get(tx_index.get(k, -1))
             if own is not None or loss_pos is not None:
                 fails.append(("ack-lost", f"write({k}) never completed although "
                               + ("its terminal reply was delivered" if own is not None else "the connection was lost")))
-    # (3) disconnect(wait=True)
+    # (4) disconnect(wait=True)
     for i, e in enumerate(ev):
         if e[0] == "disc-ret" and (loss_pos is None or loss_pos > i):
+            if e[1]:
+                if not (e[1] == "DeviceError" and error_line_since_previous_completion(i)):
+                    fails.append(("spurious-raise", f"disconnect(wait=True) raised {e[1]} although no error line had been "
+                                  "delivered since the previous call"))
+                continue
             sent_before = [x for x in ev[:i] if x[0] == "tx" and x[3]]
             un = [x[2] for x in sent_before if x[1] not in rel_pos or rel_pos[x[1]][0] > i]
             if un:
@@ -316,16 +438,32 @@ def oracle(case, ev):
     return fails
 
 
+SHIFT_KINDS = ("early-return", "error-not-raised", "spurious-raise", "disconnect-early")
+
+
 def absorb_backlog(fl) -> bool:
     """HandshakeBacklog: when printcore went online, a command sent before (a connect probe) was still
     unanswered, and the failure is of the kind a shifted acknowledgement produces."""
-    return (fl.get("backlog_at_online", 0) >= 1
-            and fl.get("tag") in ("early-return", "error-not-raised", "spurious-raise", "disconnect-early"))
+    return fl.get("backlog_at_online", 0) >= 1 and fl.get("tag") in SHIFT_KINDS
+
+
+def absorb_surplus(fl) -> bool:
+    """SurplusReply: a flag-setting line that is nobody's terminal reply (the ok after an error line, a spurious
+    ok, an unsolicited alarm) was delivered while connect() awaited a reset or while a write() was waiting for
+    the reply to its own statement; the failure is of the kind a shifted acknowledgement produces."""
+    return fl.get("surplus_hit", 0) >= 1 and fl.get("tag") in SHIFT_KINDS
+
+
+def absorbed_by(fl, listed):
+    for fid, pred in ((FID_BACKLOG, absorb_backlog), (FID_SURPLUS, absorb_surplus)):
+        if pred(fl):
+            return fid, fid in listed
+    return None, False
 
 
 # ------------------------------------------------------------------ running a batch of release scripts
 def case_repr(case):
-    return {k: case[k] for k in ("kind", "flavour", "n", "disc", "stmts", "ops")}
+    return {k: case[k] for k in ("kind", "flavour", "n", "disc", "gated", "stmts", "ops") if k in case}
 
 
 def model_records(cases):
@@ -342,20 +480,26 @@ def model_records(cases):
     return recs
 
 
-def judge(R, case, ev, label, listed_backlog):
+def fresh_failures(R):
+    """oracle failures that no finding predicate absorbs"""
+    return [fl for fl in R.failures if not absorbed_by(fl, ())[0]]
+
+
+def judge(R, case, ev, label, listed):
     fails = oracle(case, ev)
-    info = structural_info(ev)
+    info = structural_info(case, ev)
     for tag, msg in fails:
         fl = dict(tag=tag, **info)
-        if absorb_backlog(fl) and not listed_backlog:
-            # the finding is recorded in harness/findings_c16.json but not yet merged into known_findings.json
-            R.count("unmerged-finding:" + FID_BACKLOG)
+        fid, is_listed = absorbed_by(fl, listed)
+        if fid and not is_listed:
+            # recorded in harness/findings_c16.json but not yet merged into known_findings.json
+            R.count("unmerged-finding:" + fid)
             continue
         R.fail(case_repr(case), msg, tag=tag, **info)
     return fails, info
 
 
-def run_batch(R, cases, label, listed_backlog, compare=True):
+def run_batch(R, cases, label, listed, compare=True):
     recs = model_records(cases)
     n_dis = 0
     for case, exp in zip(cases, recs):
@@ -365,9 +509,9 @@ def run_batch(R, cases, label, listed_backlog, compare=True):
             if leftover:
                 raise core.Infra(f"printcore threads left running after a case: {leftover}")
             tries += 1
-            info = structural_info(ev)
-            fails = [f for f in oracle(case, ev) if not absorb_backlog(dict(tag=f[0], **info))]
-            if (bad is None and not fails) or tries >= 3:
+            info = structural_info(case, ev)
+            fails = [f for f in oracle(case, ev) if not absorbed_by(dict(tag=f[0], **info), listed)[0]]
+            if (bad is None and not fails) or tries >= (3 if n_dis < 4 else 1):
                 break
             timeout, settle = timeout * 1.5, settle * 2  # real threads: retry before it counts
         R.count(label, "kind:" + case["kind"], "flavour:" + case["flavour"], f"writes:{case['n']}",
@@ -385,8 +529,8 @@ def run_batch(R, cases, label, listed_backlog, compare=True):
             n_dis += 1
             R.disagree("directwrite-release-script", case_repr(case), show(impl[bad]), show(project(exp[bad + 1])),
                        step=f"op {bad}: {case['ops'][bad][:3]}")
-        judge(R, case, ev, label, listed_backlog)
-        if n_dis >= 6 and len(R.failures) >= 3:
+        judge(R, case, ev, label, listed)
+        if n_dis >= 6 and len(fresh_failures(R)) >= 3:
             R.notes.append(f"{label}: stopped after {n_dis} disagreeing cases (enough to decide)")
             break
 
@@ -454,7 +598,7 @@ def run_delay_case(d_clear, d_wait, n, with_status):
     return snap, list(S.ev), None
 
 
-def sub_delay(R, listed_backlog):
+def sub_delay(R, listed):
     variants = [(0.05, 0.0), (0.0, 0.05), (0.04, 0.04)]
     n = 3
     # the settle after the third R already performs wClear/wEnq/sSend for statement 0
@@ -587,34 +731,54 @@ def backlog_case():
     return {"kind": "serial", "flavour": "backlog", "n": 2, "disc": True, "stmts": ["G1 X0\n", "G1 X1\n"], "ops": ops}
 
 
-def witness_backlog():
-    """Two connect probes pile up, the device answers both later: deterministic replay on the implementation."""
-    case = backlog_case()
+def _witness(case, pred, what):
     exp = model_records([case])[0]
     for _ in range(2):
         impl, ev, bad, left = run_case(case, exp)
         fails = oracle(case, ev)
-        info = structural_info(ev)
-        hit = [f for f in fails if absorb_backlog(dict(tag=f[0], **info))]
+        info = structural_info(case, ev)
+        hit = [f for f in fails if pred(dict(tag=f[0], **info))]
         if hit:
-            return True, (f"2 x 'G4 P0' before the first answer, both answered later: {hit[0][1]}"
-                          f" (model agrees: {bad is None})")
-    return False, "handshake backlog no longer reproduces"
+            return True, f"{what}: {hit[0][1]} (model agrees: {bad is None})"
+    return False, what + ": no longer reproduces"
 
 
-FINDING_PREDICATES = {FID_BACKLOG: absorb_backlog}
-WITNESSES = {FID_BACKLOG: witness_backlog}
+def witness_backlog():
+    """Two connect probes pile up, the device answers both later: deterministic replay on the implementation."""
+    return _witness(backlog_case(), absorb_backlog, "2 x 'G4 P0' before the first answer, both answered later")
+
+
+def surplus_case():
+    ok = [("ok", False)]
+    ops = [["start"], ["D", "-", "o", ok], ["R"], ["D", "-", "o", ok], ["R"], ["D", "-", "o", ok], ["R"],
+           ["W"], ["D", "-", "b", [("error:20", True)]], ["X", "o", "ok"], ["R"],   # statement 0: error:20, then ok
+           ["W"], ["R"],                                                           # caller already in write(1)
+           ["D", "-", "o", ok], ["R"], ["settle"]]
+    return {"kind": "serial", "flavour": "surplus-hit", "n": 2, "disc": False, "gated": True,
+            "stmts": ["G999\n", "G1 X2\n"], "ops": ops}
+
+
+def witness_surplus():
+    """error:20 + ok for statement 0; the ok is read after the caller entered write(1)."""
+    return _witness(surplus_case(), absorb_surplus,
+                    "statement 0 answered 'error:20' then 'ok', the ok read after write(1) had started")
+
+
+FINDING_PREDICATES = {FID_BACKLOG: absorb_backlog, FID_SURPLUS: absorb_surplus}
+WITNESSES = {FID_BACKLOG: witness_backlog, FID_SURPLUS: witness_surplus}
 
 
 # ------------------------------------------------------------------ entry points
 def run(R: core.Run):
     R.rule = ("release scripts: 1-5 statements x per-command reply scripts (0-3 status/T: lines, some with 'ok' inside a "
               "word, then ok-variant or error/alarm/!! terminal) x random interleaving of device consumption and line "
-              "release x optional connection loss x optional disconnect(wait=True); non-trivial = at least 4 terminal "
+              "release x optional connection loss x optional disconnect(wait=True); gated scripts: the caller starts each "
+              "call on command, surplus ok / unsolicited error lines queued behind a reply are read between two calls; non-trivial = at least 4 terminal "
               "replies released and at least one write completed; distinct by hash")
     R.assumptions = [
         "single caller thread (connect; writes; disconnect), as GCodeBuilder uses a writer; a second thread only in sub-harness C",
-        "the device answers every received command with exactly one terminal reply (ok... or error.../alarm.../!!...) "
+        "the device answers every received command with exactly one terminal reply (ok... or error.../alarm.../!!...), "
+        "may push surplus ok / unsolicited error lines at any time (scripted as separate `X` lines), "
         "and never sends greetings ('start', 'Grbl'), 'Resend:'/'rs' or 'DEBUG_' lines during a session",
         "line-number mode (no 'Grbl' greeting); connect probes and resets are acknowledged with a lowercase 'ok...'",
         "after a connection loss both reads and writes on the port fail (fake port); on a socket the loss is the last event",
@@ -627,16 +791,22 @@ def run(R: core.Run):
         "reached (or 1.5 s time-out) plus a settle interval",
     ]
     logging.disable(logging.CRITICAL)  # printcore / writer log every device error
-    listed = any(f.get("id") == FID_BACKLOG and f.get("status") == "finding" for f in core.load_findings(PROP))
-    if not listed:
-        R.notes.append(f"{FID_BACKLOG} is not yet in known_findings.json: its cases are compared with the model but "
-                       "their oracle failures are only counted (see harness/findings_c16.json)")
+    listed = {f.get("id") for f in core.load_findings(PROP) if f.get("status") == "finding"}
+    for fid in (FID_BACKLOG, FID_SURPLUS):
+        if fid not in listed:
+            R.notes.append(f"{fid} is not yet in known_findings.json: its cases are compared with the model but "
+                           "their oracle failures are only counted (see harness/findings_c16.json)")
     n = R.n(40, 800)
     n_sock = max(2, n // 8)
-    n_back = max(2, n // 12)
-    corpus = [backlog_case()]
-    cases = [gen_case(R.rng) for _ in range(n - n_sock - n_back)]
+    n_back = max(2, n // 14)
+    n_gated = max(8, n // 4)
+    n_hit = max(2, n // 14)
+    corpus = [backlog_case(), surplus_case()]
+    cases = [gen_case(R.rng) for _ in range(max(4, n - n_sock - n_back - n_gated - n_hit))]
     cases += [gen_case(R.rng, flavour="backlog") for _ in range(n_back)]
+    cases += [gen_gated_case(R.rng, hit=False) for _ in range(n_gated)]
+    cases += [gen_gated_case(R.rng, hit=True) for _ in range(n_hit)]
+    R.rng.shuffle(cases)
     run_batch(R, corpus + cases, "serial", listed)
     sock_cases = []
     for _ in range(n_sock):
@@ -653,13 +823,15 @@ def run(R: core.Run):
             "cases": len(ex), "exhaustive": True,
             "scope": "2 statements x {no, status, 'T:'} line x {ok, error} per statement x {eager, lazy} device x "
                      "{with, without} disconnect(wait=True), single answered probe"}
-    if not listed:
-        still, text = witness_backlog()
-        R.extra["unmerged_finding_witness"] = {FID_BACKLOG: {"still_fails": still, "text": text}}
-    if R.broken and not R.failures:
+    for fid, w in WITNESSES.items():
+        if fid not in listed:
+            still, text = w()
+            R.extra.setdefault("unmerged_finding_witness", {})[fid] = {"still_fails": still, "text": text}
+    if R.broken and not fresh_failures(R):
         # failing-input search: fresh scripts judged by the oracle alone, biased to what the property talks about
         R.search_batches += 1
         extra = [gen_case(R.rng, flavour=f) for f in ["clean"] * R.n(10, 40) + ["loss"] * R.n(3, 10)]
+        extra += [gen_gated_case(R.rng, hit=False) for _ in range(R.n(10, 40))]
         run_batch(R, extra, "search", listed, compare=False)
         sub_delay(R, listed)
     logging.disable(logging.NOTSET)
@@ -691,6 +863,6 @@ def replay(data):
     for i, got in enumerate(impl):
         print(f"op {i} {case['ops'][i][:3]}\n  impl : {show(got)}\n  model: {show(project(exp[i + 1]))}")
     print("events:", ev)
-    print("structure:", structural_info(ev))
+    print("structure:", structural_info(case, ev))
     print("oracle:", fails or "ok")
     return 1 if (fails or bad is not None) else 0
